@@ -1,4 +1,97 @@
-static std::string dispatch_more(const std::string& op, std::istringstream&)
+// position / game ops
+struct GameCase
 {
+    std::string fen;
+    std::vector<std::string> moves;
+};
+
+static GameCase parse_game(std::istringstream& is)
+{
+    GameCase g;
+    std::string tok;
+    bool in_moves = false;
+    while (is >> tok)
+    {
+        if (tok == "|") { in_moves = true; continue; }
+        if (in_moves) g.moves.push_back(tok);
+        else g.fen += (g.fen.empty() ? "" : " ") + tok;
+    }
+    return g;
+}
+
+static std::vector<Move> gen_moves(const Position& p)
+{
+    Move buf[MAX_MOVES];
+    Move* end = generate_moves(p, p.color(), buf);
+    return std::vector<Move>(buf, end);
+}
+
+static std::string join(std::vector<std::string> v, const char* sep = " ")
+{
+    std::string s;
+    for (size_t i = 0; i < v.size(); ++i) { if (i) s += sep; s += v[i]; }
+    return s;
+}
+
+static std::string obs_legal(Position& p)
+{
+    std::vector<std::string> v;
+    for (Move m : gen_moves(p)) v.push_back(p.uci(m));
+    std::sort(v.begin(), v.end());
+    return std::to_string(v.size()) + " " + join(v);
+}
+
+static std::string obs_fen(Position& p) { return p.fen(); }
+
+// every legal move: text, and whether parsing the text back gives the same encoded move
+static std::string obs_uci(Position& p)
+{
+    std::vector<std::string> v;
+    for (Move m : gen_moves(p))
+    {
+        std::string s = p.uci(m);
+        Move m2 = p.parse_uci(s);
+        v.push_back(s + (m2 == m ? ":1" : ":0"));
+    }
+    std::sort(v.begin(), v.end());
+    return join(v);
+}
+
+typedef std::string (*Observer)(Position&);
+
+static std::string run_game(std::istringstream& is, Observer obs)
+{
+    GameCase g = parse_game(is);
+    Position p(g.fen);
+    std::string out = obs(p);
+    for (const std::string& ms : g.moves)
+    {
+        Move m = p.parse_uci(ms);
+        p.do_move(m);
+        out += " ; " + obs(p);
+    }
+    return out;
+}
+
+// fen_rt <fen>: print, reload, print again, compare every field
+static std::string op_fen_rt(std::istringstream& is)
+{
+    GameCase g = parse_game(is);
+    Position p(g.fen);
+    std::string f1 = p.fen();
+    Position q(f1);
+    std::string f2 = q.fen();
+    bool same = (p == q) && p.half_moves() == q.half_moves() && p.ply_count() == q.ply_count() &&
+                p.hash() == q.hash() && p.pawn_hash() == q.pawn_hash();
+    for (int s = 0; s < 64; ++s) same = same && p.piece_at(Square(s)) == q.piece_at(Square(s));
+    return f1 + " | " + f2 + " | " + (same ? "1" : "0");
+}
+
+static std::string dispatch_more(const std::string& op, std::istringstream& is)
+{
+    if (op == "g_legal") return run_game(is, obs_legal);
+    if (op == "g_fen") return run_game(is, obs_fen);
+    if (op == "g_uci") return run_game(is, obs_uci);
+    if (op == "fen_rt") return op_fen_rt(is);
     return "UNKNOWN-OP " + op;
 }
